@@ -69,8 +69,8 @@ Fixpoint take_crlf (b : bytes) : option (bytes * bytes) :=
 
 Definition strip_cr (l : bytes) : bytes :=
   match frev l with
-  | 13 :: r => frev r
-  | _ => l
+  | x :: r => if N.eqb x 13 then frev r else l
+  | [] => l
   end.
 
 (* eols = (CRLF, LF): earliest terminator, CRLF preferred at the same place *)
